@@ -371,6 +371,37 @@ class Run:
     sys.stdout.flush()
     return exit_code
 
+  def _source_state(self) -> dict:
+    """which source the run was tied to: repository HEAD, dirty flag, sha256 of the anchored files"""
+    import hashlib
+    st = {"repo": REPO}
+    try:
+      st["head"] = subprocess.run(["git", "-C", REPO, "rev-parse", "HEAD"], capture_output=True,
+                                  text=True).stdout.strip()
+      st["dirty_files"] = [l[3:] for l in subprocess.run(
+          ["git", "-C", REPO, "status", "--porcelain", "--untracked-files=no"], capture_output=True,
+          text=True).stdout.splitlines()][:20]
+    except OSError:
+      pass
+    files = []
+    try:
+      with open(os.path.join(VERIF, "properties.jsonl")) as fh:
+        for line in fh:
+          d = json.loads(line)
+          if d.get("id") == self.prop:
+            files = d.get("anchors", {}).get("files", [])
+    except OSError:
+      pass
+    sha = {}
+    for f in files:
+      try:
+        with open(os.path.join(REPO, f), "rb") as fh:
+          sha[f] = hashlib.sha256(fh.read()).hexdigest()[:16]
+      except OSError:
+        sha[f] = "unreadable"
+    st["anchored_files_sha256_16"] = sha
+    return st
+
   def _write_evidence(self, n_viol: int):
     obl = self.audit["obligations"] if self.audit else []
     cov = {
@@ -390,6 +421,7 @@ class Run:
         "disagreements": len(self.disagreements),
         "known_findings_seen": {k: v["n"] for k, v in self.known_seen.items()},
         "replays": self.replay_paths,
+        "source_tied_to": self._source_state(),
     }
     cov.update(self.extra)
     ev = {"property_id": self.prop, "tier": self.tier, "seed": self.seed, "level": "proof",
